@@ -3,9 +3,10 @@
 import json, sys, subprocess, os
 pid, n = sys.argv[1], sys.argv[2]
 p = [json.loads(l) for l in open('/verif/properties.jsonl') if json.loads(l)['id'] == pid][0]
-wt = f"/tmp/seed-{pid.lower()}"
+wt = sys.argv[3] if len(sys.argv) > 3 else f"/tmp/seed-{pid.lower()}"
 if not os.path.exists(wt):
     subprocess.run(["git", "-C", "/repo", "worktree", "add", "--detach", wt, "HEAD"], check=True, stdout=subprocess.DEVNULL, stderr=subprocess.DEVNULL)
+subprocess.run(["git", "-C", wt, "checkout", "-q", "--detach", subprocess.run(["git", "-C", "/repo", "rev-parse", "HEAD"], capture_output=True, text=True).stdout.strip()])
 out = f"/tmp/seed-out/{pid}"
 os.makedirs(out, exist_ok=True)
 t = open('/verif/tools/seeder_prompt.txt').read()
